@@ -192,8 +192,14 @@ func runLogoutStream(c *Ctx, n int) {
 					}
 					labels = append(labels, "retag-root="+rt.Tag)
 				case 5:
-					rt.CreateAttr("ID", "_edited")
-					labels = append(labels, "edit-id")
+					// the root no longer carries the ID its signature references (no extra PRNG draw: the variant follows k)
+					if k%2 == 1 {
+						editRootID(rt, "prefixed-id-namesake-first")
+						labels = append(labels, "prefixed-id-namesake-first")
+					} else {
+						rt.CreateAttr("ID", "_edited")
+						labels = append(labels, "edit-id")
+					}
 				default:
 					if n := findFirst(rt, "Issuer"); n != nil {
 						n.SetText("https://evil-idp.example.com/metadata")
@@ -356,6 +362,9 @@ func runLogoutStream(c *Ctx, n int) {
 			}
 		} else if genuine && len(faults) == 0 && (rs.SignedBy == nil || sigOK || sp.SkipSignatureValidation) {
 			c.Violate("spec", "logout:genuine-rejected", "a genuine, correctly addressed logout message was rejected: "+err.Error(), replay)
+		}
+		if accepted && !sp.SkipSignatureValidation && !flag && hasEnvelopedSignature(raw) {
+			c.Violate("spec", "logout:enveloped-signature-downgraded", "the presented "+rs.Kind+" root envelops a ds:Signature (direct child) but the message was accepted as UNSIGNED (SignatureValidated=false): its own present signature, which does not verify for this root (edited / shadowed ID), was handled as missing", replay)
 		}
 		if sigDeep && !sp.SkipSignatureValidation && accepted {
 			c.Violate("spec", "logout:bad-signature-accepted:deep", "logout message whose own signature sits below samlp:Extensions (so it cannot verify) was accepted: a present-but-bad signature downgraded to unsigned", replay)
